@@ -11,6 +11,8 @@ def parseOp (s : String) : Option Wr :=
     | "s" => some (.slice d)
     | "k" => some (.known d)
     | "u" => some (.unknown d)
+    | "c" => some (.unknown d)     -- a reader of unknown length that hands the data out in short reads
+    | "e" => some (.unknown d)     -- the same, the last piece together with io.EOF
     | _ => none
   | _ => none
 
